@@ -22,6 +22,7 @@
 //!props fn get_mut : C01, C02, C03
 //!props lemma lemma_wf_implies_disjoint : C01
 //!props lemma lemma_wf_nonzst_strict : C02
+//!props lemma lemma_history_step : C01, C02, C03
 // Everything between `// from <file>:<line>` markers and the next blank template text is copied
 // from /repo on every run by lib/vx.py; contracts are spliced in.  See DESIGN.md 3.2.
 #![feature(allocator_api)]
@@ -465,6 +466,61 @@ pub proof fn lemma_wf_nonzst_strict(data: Seq<DatumId>, defs: Defs, i: int, j: i
     requires wf(data, defs), 0 <= i < j < data.len(), sz(defs, data[i]) > 0,
     ensures off(defs, data[i]) < off(defs, data[j]),
 {
+}
+
+/// History induction step (C01, C02, C03 over whole histories).  What `close_record_variant_with`
+/// guarantees (unit builder: the new variant is what the strategy returned, earlier variants are
+/// untouched, pending additions occur in no closed variant) together with the strategy contract
+/// (frame: only offsets of the added ids change; the returned list is WF) keeps EVERY variant WF and
+/// moves no datum of an already closed variant.
+pub open spec fn no_common_id(a: Seq<DatumId>, b: Seq<DatumId>) -> bool {
+    forall|i: int, j: int| #![trigger a[i], b[j]] 0 <= i < a.len() && 0 <= j < b.len() ==> a[i] != b[j]
+}
+
+pub proof fn lemma_history_step(variants: Seq<Seq<DatumId>>, to_add: Seq<DatumId>, defs0: Defs, defs1: Defs, out: Seq<DatumId>)
+    requires
+        forall|v: int| 0 <= v < variants.len() ==> wf(#[trigger] variants[v], defs0),
+        forall|v: int| 0 <= v < variants.len() ==> no_common_id(to_add, #[trigger] variants[v]),
+        same_except(defs0, defs1, to_add),
+        wf(out, defs1),
+    ensures
+        forall|v: int| 0 <= v < variants.push(out).len() ==> wf(#[trigger] variants.push(out)[v], defs1),
+        forall|v: int, i: int| 0 <= v < variants.len() && 0 <= i < variants[v].len() ==>
+            off(defs1, #[trigger] variants[v][i]) == off(defs0, variants[v][i]),
+{
+    assert forall|v: int, i: int| 0 <= v < variants.len() && 0 <= i < variants[v].len() implies
+        off(defs1, #[trigger] variants[v][i]) == off(defs0, variants[v][i])
+        && sz(defs1, variants[v][i]) == sz(defs0, variants[v][i])
+        && alg(defs1, variants[v][i]) == alg(defs0, variants[v][i]) by {
+        let d = variants[v][i];
+        assert(wf(variants[v], defs0));
+        assert(no_common_id(to_add, variants[v]));
+        assert(!has_id(to_add, d.0 as int)) by {
+            if has_id(to_add, d.0 as int) {
+                let j = choose|j: int| 0 <= j < to_add.len() && (#[trigger] to_add[j]).0 == d.0 as int;
+                assert(to_add[j] != variants[v][i]);
+            }
+        }
+        assert(defs0[d.0 as int].details.offset == defs1[d.0 as int].details.offset);
+        assert(defs0[d.0 as int].details.type_info == defs1[d.0 as int].details.type_info);
+    }
+    let all = variants.push(out);
+    assert forall|v: int| 0 <= v < all.len() implies wf(#[trigger] all[v], defs1) by {
+        if v < variants.len() {
+            let l = variants[v];
+            assert(all[v] == l);
+            assert(wf(l, defs0));
+            assert forall|i: int, j: int| #![trigger l[i], l[j]] 0 <= i < j < l.len() implies dend(defs1, l[i]) <= off(defs1, l[j]) by {
+                assert(off(defs1, variants[v][i]) == off(defs0, variants[v][i]));
+                assert(off(defs1, variants[v][j]) == off(defs0, variants[v][j]));
+            }
+            assert forall|i: int| 0 <= i < l.len() implies (#[trigger] l[i]).0 < defs1.len() && alg(defs1, l[i]) > 0 && off(defs1, l[i]) % alg(defs1, l[i]) == 0 by {
+                assert(off(defs1, variants[v][i]) == off(defs0, variants[v][i]));
+            }
+        } else {
+            assert(all[v] == out);
+        }
+    }
 }
 
 // ---------------------------------------------------------------------------------------------
